@@ -330,6 +330,28 @@ where
     Ok(())
 }
 
+/// For `ModifyColumnNullable { nullable: false, fill_with: None }` on a column that has a default
+/// in the baseline schema, use that default as the fill value.
+fn apply_default_as_fill_with(plan: &mut MigrationPlan, current_schema: &[TableDef]) {
+    for action in &mut plan.actions {
+        if let MigrationAction::ModifyColumnNullable {
+            table,
+            column,
+            nullable: false,
+            fill_with,
+        } = action
+            && fill_with.is_none()
+            && let Some(default) = current_schema
+                .iter()
+                .find(|t| t.name == *table)
+                .and_then(|t| t.columns.iter().find(|c| c.name == *column))
+                .and_then(|c| c.default.as_ref())
+        {
+            *fill_with = Some(default.to_sql());
+        }
+    }
+}
+
 /// Check that no AddColumn action adds a non-nullable FK column without a default.
 /// This is logically impossible: existing rows can't satisfy the FK constraint.
 fn check_non_nullable_fk_add_columns(plan: &MigrationPlan) -> Result<()> {
@@ -409,6 +431,11 @@ pub async fn cmd_revision(message: String, fill_with_args: Vec<String>) -> Resul
 
     // Handle any missing enum fill_with values (for removed enum values) interactively
     handle_missing_enum_fill_with(&mut plan, &baseline_schema, prompt_enum_value_bare)?;
+
+    // A column that becomes NOT NULL and already has a default is not prompted for
+    // (see find_missing_fill_with); record that default as the fill value so that existing
+    // NULLs are backfilled and the written migration passes plan validation when loaded.
+    apply_default_as_fill_with(&mut plan, &baseline_schema);
 
     plan.id = uuid::Uuid::new_v4().to_string();
     plan.comment = Some(message);
